@@ -119,9 +119,10 @@ class Decimal(SimpleModel):
 
         msl = kwargs.get('max_str_len', None)
         if msl is None:
-            kwargs['max_str_len'] = cls.Attributes.total_digits + 2
-            # + 1 for decimal separator
-            # + 1 for negative sign
+            if td is not None:
+                kwargs['max_str_len'] = td + 2
+                # + 1 for decimal separator
+                # + 1 for negative sign
 
         else:
             kwargs['max_str_len'] = msl
